@@ -263,6 +263,38 @@ class OSet:
             if len(self._d) != n:
                 raise RuntimeError("Set changed size during iteration")
 
+    # the set algebra a plain set offers (results keep the insertion order of the left operand)
+    def __sub__(self, other: Any) -> "OSet":
+        return OSet((k for k in self._d if k not in other), self._lifo)
+
+    def __and__(self, other: Any) -> "OSet":
+        return OSet((k for k in self._d if k in other), self._lifo)
+
+    def __or__(self, other: Any) -> "OSet":
+        return OSet(list(self._d) + [k for k in other if k not in self._d], self._lifo)
+
+    def __rsub__(self, other: Any) -> "OSet":
+        return OSet((k for k in other if k not in self._d), self._lifo)
+
+    __ror__ = __or__
+    __rand__ = __and__
+    difference = __sub__
+    union = __or__
+    intersection = __and__
+
+    def update(self, other: Any) -> None:
+        for k in other:
+            self._d[k] = None
+
+    def difference_update(self, other: Any) -> None:
+        for k in list(other):
+            self._d.pop(k, None)
+
+    def pop(self) -> Any:
+        k = next(reversed(self._d)) if not self._lifo else next(iter(self._d))
+        del self._d[k]
+        return k
+
     def __eq__(self, other: Any) -> bool:
         if isinstance(other, OSet):
             return set(self._d) == set(other._d)
@@ -405,7 +437,7 @@ class SimSocket:
             raise OSError(errno.EBADF, "Bad file descriptor")
         self.peer = tuple(addr)
         self.connecting = True
-        self.world.rec("sock_connect", fd=self._fd, addr=list(addr[:2]))
+        self.world.rec("sock_connect", fd=self._fd, addr=list(addr[:2]), sockaddr=list(addr))
         self.world.net.start_connect(self, self.peer)
         raise BlockingIOError(errno.EINPROGRESS, "Operation now in progress")
 
